@@ -104,7 +104,9 @@ def propagate(data, d, medium_index=None, illum_wavelen=None, cfsp=0,
     # we may have lost coordinate values to floating point precision
     # during fft/ifft
     res.name = 'propagation'
-    res = res.to_dataset().update({'x': data.x, 'y': data.y})[res.name]
+    res_dataset = res.to_dataset()
+    res_dataset.update({'x': data.x, 'y': data.y})
+    res = res_dataset[res.name]
 
     if contains_zero:
         d = d_old
